@@ -6,7 +6,8 @@ Import ListNotations.
 Open Scope Z_scope.
 
 (* client interceptor scripts: add to the request, append an option, call onward 0/1/2 times *)
-Record cscript := { cs_tag : Z; cs_dreq : Z; cs_opt : Z (* 0 = none *); cs_calls : Z; cs_dresp : Z; cs_fail : Z }.
+Record cscript := { cs_tag : Z; cs_dreq : Z; cs_opt : Z (* 0 = none *); cs_calls : Z; cs_dresp : Z; cs_fail : Z;
+                    cs_cc : Z (* connection argument handed onward: 0 its own, 1 nil, 2 another connection; ignored by the library *) }.
 
 Definition script_cint (s : cscript) : ucint :=
   fun m req cc next opts l =>
